@@ -37,6 +37,7 @@ var tokens = []string{
 	"-", "--", "---s", "-=", "-x=", "--=v", "-n=x", "-b=maybe",
 	"-u", "-u=1",
 	"5", "x", "true", "", "\xff-",
+	"-n=99999999999999999999", "-u64=18446744073709551616", // syntactically numbers, out of range: unparsable effective values
 }
 
 // ---------------------------------------------------------------- reference parser
